@@ -1,18 +1,23 @@
 (* C20: intersection returns exactly the parameter pairs where the curves meet (segments and polylines). *)
 From Coq Require Import QArith Qabs List Bool Arith.
-From NurbsV Require Import Base.Res Base.QList Spec.KnotSpec Model.KV Model.Advanced Check.Common Check.C19.
+From NurbsV Require Import Base.Res Base.QList Spec.KnotSpec Model.KV Model.Advanced Check.Common Check.Oracle Check.C19.
 Import ListNotations.
 Open Scope Q_scope.
 
 (* (knots and vertices of A, knots and vertices of B, returned pairs (floats, exact), curves unchanged) *)
-Definition case := (list Q * list pt * list Q * list pt * res (list (Q * Q)) * bool)%type.
+(* optional third component: A is the straight segment (ka, Pa) stored as a RATIONAL curve with collinear, ordered control
+   points (same point set, monotone but non-linear parameter): its points are then evaluated with the exact NURBS
+   specification, and the model's pairs are compared on B's parameter only (A's parameter is decided by A(t) = B(u)). *)
+Definition case := (list Q * list pt * option ocurve * list Q * list pt * res (list (Q * Q)) * bool)%type.
 
 Definition tol2 : Q := (2 # 1000000) * (2 # 1000000).      (* (2e-6)^2 on squared distances *)
 Definition near (x y : Q * Q) : bool :=
   Qleb (Qabs (fst x - fst y)) slack && Qleb (Qabs (snd x - snd y)) slack.
 
 Definition check_case (c : case) : verdict :=
-  let '(ka, Pa, kb, Pb, r, unchanged) := c in
+  let '(ka, Pa, ra, kb, Pb, r, unchanged) := c in
+  let pointA (t : Q) : pt := match ra with None => poly_point ka Pa t | Some oc => o_eval oc t end in
+  let nearm (x y : Q * Q) : bool := match ra with None => near x y | Some _ => Qleb (Qabs (snd x - snd y)) slack end in
   let model := intersect_polylines ka Pa kb Pb in
   let (loa, hia) := (nth 0 ka 0, last ka 0) in
   let (lob, hib) := (nth 0 kb 0, last kb 0) in
@@ -25,13 +30,14 @@ Definition check_case (c : case) : verdict :=
         unchanged
         (* inside both intervals, and a meeting point *)
         && forallb (fun p : Q * Q => Qleb loa (fst p) && Qleb (fst p) hia && Qleb lob (snd p) && Qleb (snd p) hib
-                                     && Qleb (dist2 (poly_point ka Pa (fst p)) (poly_point kb Pb (snd p))) tol2) ps
+                                     && Qleb (dist2 (pointA (fst p)) (poly_point kb Pb (snd p))) tol2) ps
         (* no duplicates *)
         && forallb (fun i => forallb (fun j => Nat.eqb i j || negb (near (nth i ps (0, 0)) (nth j ps (0, 0))))
                                      (seq 0 (length ps))) (seq 0 (length ps))
         (* every transversal crossing in the interior of two pieces is reported (completeness is promised for those;
            touching at a vertex or an end point may be missed), and nothing but meeting points is reported *)
-        && forallb (fun q => negb (interior q) || existsb (near q) ps) model
-        && forallb (fun p => existsb (near p) model) ps in
-      mkv (forallb (fun q => negb (interior q) || existsb (near q) ps) model && forallb (fun p => existsb (near p) model) ps) prop
+        && forallb (fun q => negb (interior q) || existsb (nearm q) ps) model
+        && forallb (fun p => existsb (nearm p) model) ps
+        && match ra with None => true | Some oc => o_wf oc end in
+      mkv (forallb (fun q => negb (interior q) || existsb (nearm q) ps) model && forallb (fun p => existsb (nearm p) model) ps) prop
   end.
